@@ -8,7 +8,7 @@ SEQ_NOTE = ("Assumes: small bounds (2-4 tasks, 1-2 epics, 1-2 agents, bounded hi
 
 checks = {
  "C05": ("model_checking", "TLC model-checks compaction invisibility/idempotence on the ideal ErgoSeq model (timed VIEW: meta-data and timestamp order kept), then every command of the TLC-printed alphabet is run on the real binary from reachable states and along simulated walks with `compact` (twice) interleaved, plus TLC-drawn legacy (untitled) stores; TLC judges post = pre including created/updated/claimed_at ranks, results order, claim order.", "5 C05", "TLA+ model checking (TLC) + trace validation of real executions"),
- "C06": ("model_checking", "The full request cross product (state x claim incl. empty x --agent) through set / new task / claim <id> / claim is explored exhaustively by TLC on the ideal spec (claim invariant, transition table, rejected-untouched as action properties) and executed on the real binary from every reachable (state, claimant) pair; TLC judges every observed step.", "5 C06", "TLA+ model checking (TLC) + trace validation of real executions"),
+ "C06": ("model_checking", "The full request cross product (state x claim incl. empty x --agent) through set / new task / claim <id> / claim is explored exhaustively by TLC on the ideal spec (claim invariant, transition table, rejected-untouched as action properties) and executed on the real binary from every reachable (state, claimant) pair; TLC judges every observed step; the concurrent half (claim <id> / set racing each other) is linearised against the ideal spec; and the claim rule is discharged as an inductive invariant by Apalache (unbounded steps) on a typed restatement that TLC checks equal to the spec operator.", "5 C06, 12a", "TLA+ model checking (TLC) + trace validation of real executions + Apalache inductive invariant"),
  "C07": ("model_checking", "Dependency-graph invariants (acyclic, no self edge, same kind, live endpoints, deps/rdeps mirror, rm removes exactly one edge, bad sequence refused) as TLC action properties over all edge insert/remove/prune histories within bounds; the same clauses judged on real executions of every alphabet command from reachable graphs. (The concurrent half of C07 is covered by the process engine under C02.)", "5 C07", "TLA+ model checking (TLC) + trace validation of real executions"),
  "C08": ("model_checking", "The manual's wording of ready/blocked (SpecReady/SpecBlocked) is checked equal to the code-derived predicates on every model state, and judged against the real flags, `list --ready` and `claim` on command-reachable states and on TLC-drawn crafted stores covering every combination of state, claim (legal or not), membership, task and epic dependencies over 3 tasks + 2 epics.", "5 C08", "TLA+ model checking (TLC) + trace validation of real executions"),
  "C09": ("model_checking", "Prune exactness, dry-run = apply, pruned ids refused by every command and never listed again (also after compact) as TLC action properties, judged on real executions from reachable states and crafted stores (every state/membership combination incl. error/blocked children).", "5 C09", "TLA+ model checking (TLC) + trace validation of real executions"),
@@ -27,7 +27,7 @@ PROC_NOTE = ("Assumes: scenario menus and process counts of spec/MC_Proc.tla (2-
              "sleeps. Verdicts are ErgoConc clauses evaluated by TLC on the observed concurrent history. Trusted: TLC, Go stdlib, Linux flock/rename/O_APPEND.")
 proc_checks = {
  "C01": ("model_checking", "ErgoProc (processes parked at the code's sync points, flock, file as lines + torn tail) is model-checked for serialisability of concurrent claims; every reachable model state x every enabled process step is then realised on real `ergo claim` processes through the blocking hooks (including select-before-lock and missing-lock-file races) and TLC judges the observed history: some serial order of the successful claims must explain every reply and the final state; no double hand-out; winner holds the task; busy = no effect; nobody waits.", "5 C01", "TLA+ model checking (TLC) + schedule replay on real processes + TLC-judged linearisation"),
- "C02": ("model_checking", "Same engine over a menu of command pairs (new, new+claim, set, claim, claim <id>, sequence both ways, sequence rm, plan, prune, compact, failing commands, missing lock file): linearisation against the ideal sequential spec, whole-lines, never-waits.", "5 C02", "TLA+ model checking (TLC) + schedule replay on real processes + TLC-judged linearisation"),
+ "C02": ("model_checking", "Same engine over a menu of command pairs (new, new+claim, set, claim, claim <id>, sequence both ways, sequence rm, plan, prune, compact, failing commands, missing lock file): linearisation against the ideal sequential spec, whole-lines, never-waits; uncontrolled 4-process storms; and TLC validation (ErgoHooks) of the sync-point traces harvested from the repository's own integration tests run with the hooks on (mutual exclusion per store, writes only under the lock).", "5 C02, 12a", "TLA+ model checking (TLC) + schedule replay on real processes + TLC-judged linearisation"),
  "C03": ("fault_enumeration", "Every sync point of every mutating command kind as a kill point, with death between system calls, inside write(2) (partial line / whole line without newline, written by the controller) and inside the temp-file write; afterwards reads must succeed, only a prefix of the interrupted command's own events may be missing, and a continuation (new task, set, compact, list) must succeed, take effect and leave everything else untouched.", "5 C03", "TLA+ model checking (TLC) + crash-point enumeration on real processes"),
  "C04": ("fault_enumeration", "Kill points between system calls for every multi-event command kind (claim, multi-field set, new task with state/claim, prune of several items, sequence, plan on empty and non-empty logs, compact): the observable state afterwards is exactly the state before or the state after (computed by the ideal spec), judged by TLC.", "5 C04", "TLA+ model checking (TLC) + crash-point enumeration on real processes"),
  "C13": ("model_checking", "A lock-free `list --json --all` parked at each of its sync points (opened, probed) while each writer kind (append, prune, compact and plan rewrites) is advanced to each of its sync points or killed mid-line: the reader must exit 0 and its output must be the view of a whole-event prefix between the logs that were on disk during its window (TLC computes the allowed set from the recorded snapshots).", "5 C13", "TLA+ model checking (TLC) + schedule replay on real processes"),
